@@ -139,6 +139,28 @@ pub fn all_entry_points(path: &std::path::Path, threads: usize) -> String {
         })
     });
     results.push(("simple_bufreader".to_string(), r));
+    // buffered readers with small capacities: a section marker / token / block header may straddle a refill boundary
+    // (capped by the file size: each capacity costs one load)
+    let caps: Vec<usize> = if bytes.len() < 200_000 { vec![1, 2, 3, 5, 16, 17, 33, 64, 100, 509, 4096] } else { vec![4096] };
+    for cap in caps {
+        for progress in [false, true] {
+            let p = path.to_path_buf();
+            let o = LoadOptions { multi_thread: false, remove_scopes_with_empty_name: false };
+            let r = pool.install(|| {
+                guarded(move || {
+                    let f = std::io::BufReader::with_capacity(cap, std::fs::File::open(&p).unwrap());
+                    two_phase_dump(viewers::read_header(f, &o), progress)
+                })
+            });
+            results.push((format!("bufreader2p:cap={cap}:pg={progress}"), r));
+        }
+        let b = bytes.clone();
+        let bl = body_len.clone();
+        let r = pool.install(|| {
+            guarded(move || simple_dump(wellen::simple::read_from_reader(std::io::BufReader::with_capacity(cap, std::io::Cursor::new(b))), &bl))
+        });
+        results.push((format!("simple_bufcursor:cap={cap}"), r));
+    }
     let (n0, r0) = &results[0];
     for (n, r) in results.iter().skip(1) {
         if r != r0 {
